@@ -146,8 +146,8 @@ def child_for(kind: str, family: str, name: str, value):
     return cls(name=name, value=value)
 
 
-def def_message(kind, device, name, state, children, label="L", group="G"):
-    kw = dict(device=device, name=name, state=state, label=label, group=group, children=tuple(children))
+def def_message(kind, device, name, state, children, label="L", group="G", timestamp="2026-01-01T00:00:00"):
+    kw = dict(device=device, name=name, state=state, label=label, group=group, children=tuple(children), timestamp=timestamp)
     if kind != "Light":
         kw["perm"] = "rw"
     if kind == "Switch":
@@ -155,8 +155,10 @@ def def_message(kind, device, name, state, children, label="L", group="G"):
     return msg_class(f"Def{kind}Vector")(**kw)
 
 
-def set_message(kind, device, name, state, children):
-    return msg_class(f"Set{kind}Vector")(device=device, name=name, state=state, children=tuple(children))
+def set_message(kind, device, name, state, children, timestamp="2026-01-01T00:00:00"):
+    # by default the SAME coarse timestamp as the definitions: a server with a
+    # one-second clock sends exactly that
+    return msg_class(f"Set{kind}Vector")(device=device, name=name, state=state, children=tuple(children), timestamp=timestamp)
 
 
 NOMINAL = {"Text": "t0", "Number": "1", "Switch": "Off", "Light": "Ok", "BLOB": None}
